@@ -49,6 +49,9 @@ Proof.
   constructor; assumption.
 Qed.
 
+Lemma N_lt_to_nat (a b : N) : a < b -> (N.to_nat a < N.to_nat b)%nat.
+Proof. lia. Qed.
+
 Lemma NoDup_app_l {A} (l1 l2 : list A) : NoDup (l1 ++ l2) -> NoDup l1.
 Proof.
   induction l1 as [|a l1 IH]; simpl; intros H; [constructor|].
